@@ -84,7 +84,7 @@ let cmp_code = function "gt" -> 0 | "gte" -> 1 | "lt" -> 2 | "lte" -> 3 | "eq" -
 let un_code s =
   match String.split_on_char '.' s with
   | ["clamp"; lo; hi] -> 100 + 16 * int_of_string lo + int_of_string hi
-  | _ -> (match s with "neg" -> 0 | "square" -> 1 | "cube" -> 2 | "abs" -> 3 | "sign" -> 4
+  | _ -> (match s with "neg" -> 0 | "square" -> 1 | "cube" -> 2 | "abs" -> 3 | "sign" -> 4 | "sqrt" -> 5
                       | o -> failwith ("unop " ^ o))
 
 let parse_mode (s : string) : mode =
